@@ -30,7 +30,7 @@ echo "== demo WITH change (must fail)"
 echo "without=$R0 suite=$R1 with=$R2"
 if [ $R0 -eq 0 ] && [ $R1 -eq 0 ] && [ $R2 -ne 0 ]; then
   D=/verif/seeded/$NAME; mkdir -p $D
-  (cd $S && git diff -- . ':!verifdemo' ) > $D/patch.diff
+  (cd $S && git diff HEAD -- . ':!verifdemo' ':!*_demo_test.go') > $D/patch.diff
   cp $WT/SEED/demo_test.go $D/demo_test.go.txt
   cp $WT/SEED/meta.json $D/meta.agent.json
   echo "KEPT $D"
